@@ -84,6 +84,7 @@ def jobs(tier, seed):
     out.append({'name': 'd:evaluate_mask-sum', 'kind': 'sum', 'cost': 5})
     for n, kw in ((1, dict(mode='numeric')), (3, dict(mode='numeric')), (5, dict(mode='numeric')), (3, dict(mode='alphanumeric')), (4, dict(mode='byte')), (9, dict(mode='byte', error='L')), (6, dict(mode='byte', error='Q')), (2, {})):
         out.append({'name': f'f:micro-automatic-mask-end-to-end:n={n}:{kw}', 'kind': 'e2e', 'n': n, 'kw': kw, 'cost': 40})
+    out.append({'name': 'e:sequence-masks', 'kind': 'seqmask', 'cost': 10})
     for v in (T.M1, T.M3, 1, 6, 7, 20, 40):
         out.append({'name': f'e:_encode-order:{T.version_name(v)}', 'kind': 'order', 'v': v, 'cost': 10 + max(v, 0)})
     return out
@@ -94,7 +95,7 @@ def run_job(spec):
     L_ = common.sx(('consts', 'encoder'))
     k = spec['kind']
     f = {'a': job_a, 'norm': job_norm, 'b': job_b, 'c': job_c, 'micro': job_micro, 'n3': job_n3, 'allfree': job_allfree,
-         'window': job_window, 'tworows': job_tworows, 'n4': job_n4, 'sum': job_sum, 'order': job_order, 'e2e': job_e2e}[k]
+         'window': job_window, 'tworows': job_tworows, 'n4': job_n4, 'sum': job_sum, 'order': job_order, 'e2e': job_e2e, 'seqmask': job_seqmask}[k]
     f(res, L_, spec)
     return res.as_dict()
 
@@ -768,6 +769,30 @@ def job_order(res, L_, spec):
     res.sample({'case': spec['name'], 'symbolic': 'whole codeword stream (free bits)', 'obligation': 'matrix given to the mask evaluation has light format/version areas'})
 
 
+def job_seqmask(res, L_, spec):
+    """Structured Append: with mask=None every symbol goes through the automatic selection on its own (proposed mask None for
+    every symbol); with mask=k every symbol gets k (glue check, concrete content)"""
+    L2 = common.sx()
+    enc = L2.encoder
+    seen = []
+    real = enc.find_and_apply_best_mask
+
+    def rec(matrix, width, height, proposed_mask=None):
+        seen.append(proposed_mask)
+        return real(matrix, width, height, proposed_mask if proposed_mask is not None else 0)
+    enc.find_and_apply_best_mask = rec
+    try:
+        for kw, want in ((dict(version=1), None), (dict(symbol_count=3), None), (dict(version=2, mask=5), 5), (dict(symbol_count=4, mask=0), 0)):
+            del seen[:]
+            codes = list(enc.encode_sequence('STRUCTURED APPEND 0123456789 ' * 3, error='L', **kw))
+            ok = len(codes) > 1 and len(seen) == len(codes) and all(x == want for x in seen)
+            res.concrete('every-symbol-of-a-sequence-gets-its-own-mask-selection', ok,
+                         lambda kw=kw: res.violation('sequence-mask', f'encode_sequence({kw}): masks proposed to the selection: {seen}', {'fn': 'seqmask', 'kw': kw}))
+    finally:
+        enc.find_and_apply_best_mask = real
+    res.sample({'case': 'sequence masks', 'note': 'concrete content (glue)'})
+
+
 def micro_score_terms(m, v, base_mask):
     """ISO 7.8.3.2 scores of the four maskings of a Micro symbol given as final matrix `m` (masked with base_mask): list of 16-bit terms"""
     n = T.size(v)
@@ -932,6 +957,20 @@ def replay(viol):
         return got != want, f'N4 for {d} dark modules of {n}x{n} = {got}, exact {want}'
     if fn == 'sum':
         return True, 'evaluate_mask is not the sum of the four scores'
+    if fn == 'seqmask':
+        seen = []
+        real = enc.find_and_apply_best_mask
+
+        def rec(matrix, width, height, proposed_mask=None):
+            seen.append(proposed_mask)
+            return real(matrix, width, height, proposed_mask)
+        enc.find_and_apply_best_mask = rec
+        try:
+            codes = list(enc.encode_sequence('STRUCTURED APPEND 0123456789 ' * 3, error='L', **inp['kw']))
+        finally:
+            enc.find_and_apply_best_mask = real
+        want = inp['kw'].get('mask')
+        return not all(x == want for x in seen), f'masks proposed: {seen}'
     if fn == 'e2e':
         import segno
         from ref import decoder
